@@ -49,12 +49,14 @@ pub fn eval(sc: &Scenario) -> CaseResult {
     r.counters = base_counters(&out);
     r.summary = summary(sc, &out);
     let base = observables(&out);
-    for rep in 1..=2u64 {
+    for rep in 1..=3u64 {
         let sc2 = sc.clone();
         let h = std::thread::Builder::new().stack_size(32 << 20).spawn(move || {
             QUIET_PANICS.with(|q| q.set(true));
             let mut o = RunOpts::default();
             o.rand_xor = 0x1234_5678_9abc_def0u64.wrapping_mul(rep);
+            // the third replica: all sessions draw the SAME magic number and the same nonces
+            o.same_random_stream = rep == 3;
             observables(&run(&sc2, &o))
         });
         let other = match h.expect("spawn").join() {
@@ -74,7 +76,7 @@ pub fn eval(sc: &Scenario) -> CaseResult {
             let kind = k.split('.').nth(1).unwrap_or("x").split('[').next().unwrap_or("x").to_string();
             r.violation = Some((
                 format!("C17.differs|{kind}"),
-                format!("two executions of the same scenario (same calls, same packets, same clock; fresh hash-map seeds and different handshake numbers) differ in {k}: {} / {}", &a[..a.len().min(400)], &b[..b.len().min(400)]),
+                format!("two executions of the same scenario (same calls, same packets, same clock; fresh hash-map seeds and different handshake numbers{}) differ in {k}: {} / {}", if rep == 3 { "; in the second one every session draws the same magic number and nonces" } else { "" }, &a[..a.len().min(400)], &b[..b.len().min(400)]),
             ));
             break;
         }
@@ -87,7 +89,7 @@ pub fn eval(sc: &Scenario) -> CaseResult {
     if sc.ops.iter().any(|o| matches!(o, Op::SetDelay { .. })) {
         r.classes.push("delay_changes");
     }
-    r.counters.push(("replica_runs", 3));
+    r.counters.push(("replica_runs", 4));
     r
 }
 
